@@ -147,6 +147,12 @@ func (fc *FnCtx) staticCall(res ssa.Value, f *ssa.Function, c *ssa.CallCommon, i
 		return
 	}
 	con.Used = true
+	if con.Kind == "func" {
+		if fc.calleeContracts == nil {
+			fc.calleeContracts = map[string]bool{}
+		}
+		fc.calleeContracts[name] = true
+	}
 	var names []string
 	var args []Val
 	for i, a := range c.Args {
@@ -160,7 +166,7 @@ func (fc *FnCtx) staticCall(res ssa.Value, f *ssa.Function, c *ssa.CallCommon, i
 	if con.Kind == "extern" {
 		fc.noteExtern(name + " (contract)")
 	}
-	setRes(fc.applyContract(con, names, args, f.Signature, freshRes, pos, fc.e.modset(f)))
+	setRes(fc.applyContract(con, names, args, f.Signature, freshRes, pos, fc.callMods(c)))
 	if con.NoReturn {
 		fc.curReach = "false"
 	}
